@@ -274,6 +274,16 @@ def compare(engine, ops_text, prop, with_model=True):
     impl, model, stats = run_pair(engine, ops_text, with_model)
     res = {"disagree": [], "monitors": [], "other_monitors": 0, "stats": stats, "ops": 0, "errkind_diffs": 0}
     if impl is None:
+        # the harness process died (abort, stack overflow, allocation failure: nothing `catch_unwind`
+        # can contain).  Find the case and the op that kills it: that op is a concrete failing input
+        # for every property (none of them allows the node to go down on an input).
+        crash = localise_crash(engine, ops_text)
+        if crash is not None:
+            case, op, rc, nops = crash
+            res["monitors"].append((case, "!MON %s process-aborted rc=%s op=%s" % (prop, rc, op[:160])))
+            res["ops"] = nops
+            res["crashed"] = True
+            return res
         res["fatal"] = stats.get("harness_error", "harness failed")
         return res
     ops = [l for l in ops_text.splitlines() if l.strip()]
@@ -317,6 +327,36 @@ def compare(engine, ops_text, prop, with_model=True):
             elif reply != model[i]:
                 res["errkind_diffs"] += 1
     return res
+
+
+def localise_crash(engine, ops_text):
+    """The harness died on `ops_text`: returns (case header, killing op, exit status, ops before it)
+    for the first case that kills it when run on its own, or None."""
+    cases, cur = [], None
+    for l in ops_text.splitlines():
+        if not l.strip():
+            continue
+        if l.startswith("#case"):
+            cur = [l]
+            cases.append(cur)
+        elif cur is not None:
+            cur.append(l)
+    def dies(lines):
+        rc, _, _ = run([hbin(engine), "run", engine], inp="\n".join(lines) + "\n")
+        return rc if rc != 0 else None
+    for c in cases[:400]:
+        rc = dies(c)
+        if rc is None:
+            continue
+        lo, hi = 1, len(c) - 1          # smallest prefix (number of ops) that still kills it
+        while lo < hi:
+            mid = (lo + hi) // 2
+            if dies(c[:1 + mid]) is not None:
+                hi = mid
+            else:
+                lo = mid + 1
+        return (c[0], c[lo] if lo < len(c) else "?", rc, lo)
+    return None
 
 
 def case_text(ops_text, case_header):
